@@ -53,11 +53,7 @@ func (w *Writer) merge(a, b []*nodeInfo) []*nodeInfo {
 
 	nextDepth := b[0].depth
 	for len(a) > 1 && a[len(a)-1].depth < nextDepth && w.err == nil {
-		start := max(len(a)-maxDegree, 0)
-		for start > 0 && a[start-1].depth == a[start].depth {
-			start++
-		}
-		a = w.mergeNodes(a, start, len(a))
+		a = w.mergeLast(a)
 	}
 	if len(a) == 1 && a[0].depth < nextDepth {
 		a[0].depth = nextDepth
@@ -101,6 +97,22 @@ func (w *Writer) merge(a, b []*nodeInfo) []*nodeInfo {
 	}
 
 	return a
+}
+
+// mergeLast collapses the last (up to maxDegree) nodes of the list into a new
+// internal node, without splitting a run of nodes of equal depth.
+func (w *Writer) mergeLast(nodes []*nodeInfo) []*nodeInfo {
+	n := len(nodes)
+	start := max(n-maxDegree, 0)
+	for start > 0 && nodes[start-1].depth == nodes[start].depth {
+		start++
+	}
+	if n-start < 2 {
+		// The last node stands alone behind a full run of maxDegree nodes of
+		// equal depth.  Merge that run first.
+		return w.mergeNodes(nodes, n-1-maxDegree, n-1)
+	}
+	return w.mergeNodes(nodes, start, n)
 }
 
 // mergeNodes collapses nodes a, ..., b-1 into a new internal node.
